@@ -5,5 +5,10 @@ cd "$(dirname "$0")/.."
 for f in coq/${P}*.v coq/Properties_${P}.v ml/${P}* harness/${P} checks/${P}.py known_findings/${P}.json corpus/${P} mutants/${P} fixes/${P}-* tools/params.d/${P}*.py evidence/${P}.json coq/Params_gen.v gen/${P}*; do
   [ -e "$f" ] && git add "$f"
 done
-python3 tools/gen_manifest.py && git add MANIFEST.json
+python3 - "$P" <<'PY'
+import json,sys
+r=json.load(open('tools/ready.json'))
+if sys.argv[1] not in r: r.append(sys.argv[1]); r.sort(); json.dump(r, open('tools/ready.json','w'))
+PY
+python3 tools/gen_manifest.py && git add MANIFEST.json tools/ready.json
 git commit -qm "$MSG" && git log --oneline | head -1
